@@ -20,7 +20,7 @@ PROPERTY = "C01"
 RULE = (
     "cases = formula strings: (a) all token sequences up to a length bound over a 28-symbol alphabet (25 tokens, an illegal character, an opening quote, an opening back-quote) joined by "
     "single spaces, (b) sentences generated from the grammar (unbounded depth) rendered with drawn whitespace and "
-    "redundant parentheses, (c) near-miss mutations of those (extra token, dropped closer, second ~, a ~ nested in parentheses, dropped "
+    "redundant parentheses, (c) near-miss mutations of those (extra token, dropped closer, second ~, a ~ nested in parentheses, an earlier variable repeated with a level, dropped "
     "operand), (d) character-level strings; distinct = distinct string; non-trivial = a sentence whose tree puts "
     "two operators of different precedence next to each other or chains one operator >= 3 times, or a non-sentence "
     "that has a sentence as a proper token prefix (left-over class), or a string that is not tokenisable"
@@ -509,7 +509,7 @@ CLOSERS = {"RIGHT_PAREN", "RIGHT_BRACKET", "RIGHT_BRACE"}
 def nearmiss_case(draw, leaves):
     c = draw(sentence_case(leaves))
     toks = rp.tokenize(c["base"])
-    kind = draw(st.sampled_from(["append", "append", "drop_closer", "second_tilde", "nested_tilde", "juxtapose", "drop_operand", "unclosed_quote", "insert"]))
+    kind = draw(st.sampled_from(["append", "append", "drop_closer", "second_tilde", "nested_tilde", "repeated_with_level", "juxtapose", "drop_operand", "unclosed_quote", "insert"]))
     lex = [t[1] for t in toks]
     if kind == "append":
         lex = lex + [draw(st.sampled_from(SIGMA + ["z", "'s'", "`q`", "%", "!", ".", "//"]))]
@@ -537,6 +537,13 @@ def nearmiss_case(draw, leaves):
             lex = lex[: k + 1] + ["("] + lex[k + 1:] + ["~", "v", ")"]
         if "~" not in lex[: max(1, lex.index("(") if "(" in lex else len(lex))]:
             lex = ["y", "~"] + lex
+    elif kind == "repeated_with_level":
+        # a variable that already occurs, written once more with a level: v[level] is only the whole response
+        idx = [i for i, t in enumerate(toks) if t[0] == "IDENTIFIER" and (i + 1 == len(toks) or toks[i + 1][0] not in ("LEFT_PAREN", "LEFT_BRACKET"))]
+        v = lex[draw(st.sampled_from(idx))] if idx else "x"
+        if "~" not in lex:
+            lex = ["y", "~"] + lex
+        lex = lex + [draw(st.sampled_from(["+", ":", "*", "/"])), v, "[", draw(st.sampled_from(["a", "'a'", '"a b"'])), "]"]
     elif kind == "juxtapose":
         lex.insert(draw(st.integers(0, len(lex))), draw(st.sampled_from(["x", "1", "'a'", "f"])))
     elif kind == "drop_operand":
